@@ -79,7 +79,7 @@ def run(ctx):
             forest.add(b"w%d" % k, spec)        # the twin
             paths = [p for p, s in fstree.all_paths(spec) if p]
             names = sorted({p[-1] for p in paths})
-            kind = rng.choice(["names", "names", "names", "typef", "all", "all1", "links2", "mmin", "mmin"])
+            kind = rng.choice(["names", "names", "names", "typef", "all", "all1", "links2", "mmin", "mmin", "mminold", "mminold"])
             if kind == "names":
                 chosen = rng.sample(names, min(len(names), rng.choice([1, 2, 3]))) if names else [b"zz"]
                 expr = ["("] + sum([["-name", c.decode()] + (["-o"] if i < len(chosen) - 1 else []) for i, c in enumerate(chosen)], []) + [")"]
@@ -99,11 +99,19 @@ def run(ctx):
                 match = None
             else:
                 # everything is three hours old except a few files; "modified in the last 5 minutes" must not come to include the
-                # directories whose contents the run itself removes
-                expr = ["-mmin", "-5"]
+                # directories whose contents the run itself removes - nor "more than an hour ago" lose them
+                expr = ["-mmin", "-5"] if kind == "mmin" else ["-mmin", "+60"]
                 match = None
                 for tree in (nm, b"w%d" % k):
                     age(os.path.join(forest.dir, tree), paths, rng.getstate())
+            if rng.random() < (0.6 if match is None else 0.3):
+                # a depth bound: the directories on the bound are matched with everything below them left alone (they stay), and the
+                # ones just above it lose entries during the run like any other (their verdict is still the one on the untouched tree)
+                bound = rng.choice([1, 1, 2, 2, 3])
+                expr = ["-maxdepth", str(bound)] + expr
+                kind += "+maxdepth"
+                if match is not None:
+                    match = (lambda p, s, m0=match, bound=bound: len(p) <= bound and m0(p, s))
             cases.append((nm, b"w%d" % k, spec, expr, match, kind, rng.choice([[], [], [b"-P"], [b"-H"], [b"-H"]])))
         before_out = snapshot(os.path.join(forest.dir, b"outside"))
         il, il2 = [], []
